@@ -23,6 +23,7 @@ def base_constants():
         "GF": 3, "GA": 1, "GB": 3,
         "XsA": {0, 1, 2}, "YsA": {0, 1, 2}, "XsB": {0, 1, 2}, "YsB": {0, 1, 2},
         "HXsA": set(), "HYsA": set(), "HXsB": set(), "HYsB": set(), "GlueXs": set(),
+        "SpikeSides": set(), "SpikePos": set(), "SpikeLens": set(),
         "ThinMod": 1, "ThinRem": 0,
         "KindsA": {0}, "KindsB": {0}, "PitchA": {1}, "PitchB": {1},
         "MaxLoopsA": 1, "MaxLoopsB": 1, "FacePairs": {0}, "CheckAll": False,
@@ -195,6 +196,54 @@ def coarse_cfg(rnd, quick, target):
     return k
 
 
+def spike_cfg(rnd, quick, target):
+    """A = a rectangle given by its 4 corners only, astride the face centre (one face-sized index cell),
+    with a thin short spike (1 fine cell wide, 2..3 long) at odd fine coordinates: a loop of 8..10
+    vertices whose big index cell contains very short edges that fit in a 4..8-cell quadtree cell;
+    B = a rectangle with 40..200 vertices spaced 4..8 fine cells (>= 20 edges, several index cells much
+    larger than the spike) standing next to A so that its side cuts the spike, meets its tip, or misses
+    it: the only crossings are on the spike's edges.  Reaches the CrossingEdgeQuery branch of the loop
+    crosser (an index cell of A covering >= 20 edges of B) with a tiny query edge."""
+    k = base_constants()
+    gf = rnd.choice([6, 7])
+    n = 2 ** gf
+    side = rnd.randrange(4)
+    out = 1 if side in (0, 1) else -1
+    if out > 0:
+        base = rnd.choice([v for v in range(n // 2 + 2, n - 24) if v % 4 == 1])
+        opp = rnd.randint(2, n // 2 - 2)
+    else:
+        base = rnd.choice([v for v in range(24, n // 2 - 2) if v % 4 == 3])
+        opp = rnd.randint(n // 2 + 2, n - 2)
+    c0, c1 = rnd.randint(2, n // 2 - 8), rnd.randint(n // 2 + 8, n - 2)
+    if side in (0, 2):
+        k.update({"XsA": {base, opp}, "YsA": {c0, c1}})
+    else:
+        k.update({"XsA": {c0, c1}, "YsA": {base, opp}})
+    npos = 3 if quick else 5
+    pos = set(rnd.sample([v for v in range(c0 + 3, c1 - 3) if v % 2 == 1], npos))
+    k.update({"GF": gf, "GA": gf, "GB": gf, "KindsA": {0}, "KindsB": {0}, "PitchA": {0},
+              "PitchB": {8, rnd.choice([4, 8, 16])}, "SpikeSides": {side}, "SpikePos": pos, "SpikeLens": {2, 3}})
+    # B: near side cutting the spikes (1 cell beyond A's side), at the tips, on A's side, or beyond the tips;
+    # far side 20..45 cells further; across: covering all / some / none of the spikes
+    room = (n - base) if out > 0 else base
+    near = {base + out, base + 2 * out, base, base + out * rnd.randint(5, 9)}
+    far = {base + out * rnd.randint(20, min(45, room))}
+    along = near | far
+    mid = sorted(pos)[len(pos) // 2]
+    across = {max(0, min(pos) - rnd.randint(6, 30)), min(n, max(pos) + rnd.randint(7, 30)), mid - rnd.randint(1, 3), mid + 1}
+    if side in (0, 2):
+        k["XsB"], k["YsB"] = along, across
+    else:
+        k["XsB"], k["YsB"] = across, along
+    f = rnd.randrange(6)
+    k["FacePairs"] = {f * 6 + f}
+    est = (1 + npos * 2) * nrects(k["XsB"], k["YsB"]) * 2
+    k["ThinMod"] = max(1, int(est / (1.5 * target)))
+    k["ThinRem"] = rnd.randrange(k["ThinMod"])
+    return k
+
+
 def small_cfg(rnd, quick):
     """tiny fine level: every cell of the sphere is enumerated, so TLC proves on each generated
     pair that the probe universe is exact and that the corner sequences bound the cell sets;
@@ -214,6 +263,8 @@ def small_cfg(rnd, quick):
     k["PitchB"] = {1}
     if ga <= gb:
         k["GlueXs"] = set(rnd.sample(range(1, na + 1), 1))
+    if ga < gb:
+        k.update({"SpikeSides": {rnd.randrange(4)}, "SpikePos": set(rnd.sample(range(1, 2 ** gf - 1), 2)), "SpikeLens": {1, 2}})
     f1, f2, f3 = rnd.sample(range(6), 3)
     k["FacePairs"] = {f1 * 6 + f1, f2 * 6 + f3} if quick else {f * 6 + f for f in range(6)} | {f2 * 6 + f3, f3 * 6 + f1}
     est = (nrects(k["XsA"], k["YsA"]) * 3.0 + len(k["GlueXs"]) ** 2 * nrects({0, 1}, k["YsA"]) * 2) * nrects(k["XsB"], k["YsB"]) * 1.5 * len(k["FacePairs"])
@@ -235,7 +286,9 @@ def run(ctx):
         "cell edges are great-circle arcs, so a rectilinear loop is exactly a union of cells; the model gives every loop a vertex wherever "
         "another loop's vertex lies on its boundary (TLC-checked), so boundaries meet only in shared vertices and identical edges",
         "pairs on two different faces keep one region off the face boundary (corners on a common face edge are not bit-identical)",
-        "trace direction: nested/disjoint certificates of random regular loops come from their construction with a margin of >= 10% of the radii",
+        "trace direction: nested/disjoint certificates of random regular loops come from their construction with a margin of >= 10% of the radii; "
+        "every fifth event is an equatorial band spanning > 180 degrees of longitude with a thin triangle (one edge between nearly antipodal points) "
+        "built well inside it",
     ]
     ctx.specdir()
     target = 500 if quick else 1800
@@ -266,6 +319,10 @@ def run(ctx):
     # 2c. few-vertex loops with coarse index cells (also over two faces) against small loops
     for _ in range(1 if quick else 6):
         pairs(coarse_cfg(rnd, quick, 450 if quick else 2500), "coarse-cell / two-face pairs")
+
+    # 2d. a coarse few-vertex loop with a thin short spike against many-vertex loops cutting the spike
+    for _ in range(1 if quick else 6):
+        pairs(spike_cfg(rnd, quick, 400 if quick else 2000), "spike pairs")
 
     # 3. mixed-level loop pairs and polygon pairs
     levels = [(4, 7), (3, 6), (4, 6), (5, 7), (3, 5), (2, 5), (7, 4), (6, 3), (5, 3)]
@@ -329,7 +386,8 @@ def run(ctx):
     viols = []
     for b in r.tagged.get("BADEVENT", []):
         for law in b["laws"]:
-            viols.append({"key": "c07rand/law/%s/%s" % (law, "span" if b["span"] else "nospan"),
+            fam = "/equatorial-band" if b["k"] % 5 == 4 else ""   # the c07BandPair family of the recorder
+            viols.append({"key": "c07rand/law/%s/%s%s" % (law, "span" if b["span"] else "nospan", fam),
                           "detail": "trace event %d rejected by TraceLaws (%s)" % (b["line"], law),
                           "case": {"op": "c07rand", "seed": b["seed"], "k": b["k"]}})
     ctx.log("trace: %d events, %d rejected" % (len(events), len(r.tagged.get("BADEVENT", []))))
